@@ -360,6 +360,8 @@ type exec struct {
 	tag    string // alias-case tag appended to obligation names
 	nameN  map[string]int
 	taint  bool
+	ptrTables map[*Obj]*types.Array // backing stores of []*[N]scalar tables
+	readonlyObjs map[*Obj]bool
 	assumedCalls map[string]bool
 	inlinedFns   map[string]bool
 	calledContracts map[string]bool
@@ -706,6 +708,15 @@ func (ex *exec) freshSlice(st *State, elem types.Type, name string, depth int) *
 	o := ex.newObj(types.NewSlice(elem), name+".arr", false)
 	if es != nil {
 		st.heap[o] = Fresh(name+".arr", ex.arrSort(elem))
+	} else if at := ptrToScalarArray(elem); at != nil && ex.scalarSort(at.Elem()) != nil {
+		// read-only table of pointers to small scalar arrays ([]*[N]uintX): modelled as a two-dimensional array; an
+		// element load yields a pointer to a read-only temporary holding that row (entries are assumed non-nil and
+		// are never written through; a store into a row is rejected as unsupported)
+		st.heap[o] = Fresh(name+".tab", ArrSort(ex.idxSort(), ex.arrSort(at.Elem())))
+		if ex.ptrTables == nil {
+			ex.ptrTables = map[*Obj]*types.Array{}
+		}
+		ex.ptrTables[o] = at
 	} else {
 		// slices of non-scalars: contents unknown; modelled lazily
 		st.heap[o] = &Opaque{"backing array of " + name}
@@ -839,12 +850,41 @@ func (ex *exec) load(st *State, p *Ptr, pos token.Pos) Value {
 			ex.fail(pos, "object %s not in heap", p.Obj)
 		}
 	}
+	if at, ok := ex.ptrTables[p.Obj]; ok && len(p.Path) == 1 && p.Path[0].Field < 0 {
+		row, ok := ex.navigate(v, p.Path, pos).(*Term)
+		if !ok {
+			ex.fail(pos, "pointer table row is not an array term")
+		}
+		tmp := ex.newObj(at, p.Obj.name+"[row]", false)
+		st.heap[tmp] = row
+		if ex.readonlyObjs == nil {
+			ex.readonlyObjs = map[*Obj]bool{}
+		}
+		ex.readonlyObjs[tmp] = true
+		return &Ptr{Obj: tmp}
+	}
 	return ex.navigate(v, p.Path, pos)
+}
+
+// ptrToScalarArray: t == *[N]E for a small N
+func ptrToScalarArray(t types.Type) *types.Array {
+	p, ok := t.Underlying().(*types.Pointer)
+	if !ok {
+		return nil
+	}
+	a, ok := p.Elem().Underlying().(*types.Array)
+	if !ok || a.Len() > 64 {
+		return nil
+	}
+	return a
 }
 
 func (ex *exec) store(st *State, p *Ptr, nv Value, pos token.Pos) {
 	if p.Obj == nil {
 		ex.fail(pos, "store through nil pointer")
+	}
+	if ex.readonlyObjs[p.Obj] || ex.ptrTables[p.Obj] != nil {
+		ex.fail(pos, "store into a pointer table or one of its rows (modelled read-only)")
 	}
 	v, ok := st.heap[p.Obj]
 	if !ok {
